@@ -184,7 +184,7 @@ def run(prop, tier):
             if len(co.progs) >= 2:
                 names_ = list(co.progs.keys())[:2]
                 base_ = float(co.baseline) if co.baseline else 0.0625
-                co.__init__(co.par, co.pop, co.progs, cov_interaction=co.cov_interaction, imp_interaction="%s+%s=%r" % (names_[0], names_[1], base_ + 0.25), uncertainty=0.0, baseline=base_)
+                co.__init__(co.par, co.pop, co.progs, cov_interaction=co.cov_interaction, imp_interaction="%s+%s=%r" % (names_[0], names_[1], base_ + 0.123456789), uncertainty=0.0, baseline=base_)  # (more digits than a rounded re-write keeps)
                 cov["explicit_interaction_row"] = "%s|%s" % (co.par, co.pop)
                 break
         bs = book_sets(pg0)
